@@ -469,6 +469,13 @@ theorem stepX_inv (rs : Char → Bool) (mx : Nat) (s : St) (h : InvX mx s) (arg 
     have : (stepX rs mx s arg .killWordC).dbp = touch s.buf s.dbp (killWordK rs s.buf arg.val).buf := by
       simp [stepX, applyKill]
     rw [this]; exact touch_wf _ _ _ hdbp
+  | deleteChar =>
+    obtain ⟨hwf, hlen, hdbp⟩ := h
+    simp only [stepX]
+    refine ⟨?_, hlen, touch_wf _ _ _ hdbp⟩
+    split
+    · exact (deleteBefore_spec s.buf hwf _).2.2.1
+    · exact (delete_spec s.buf hwf _).2.2.1
   | regionTy a b kill ty =>
     obtain ⟨hwf, hlen, hdbp⟩ := h
     simp only [stepX]
@@ -666,5 +673,39 @@ example : selectionRangesI "\n\n".toList 1 1 .lines true = [(1, 2)] ∧ selectio
     selectionRangesI "\n\n".toList 2 0 .block true = [(0, 0), (1, 1), (2, 2)] ∧
     selectionRangesI "\n".toList 1 1 .lines true = [(1, 1)] ∧ selectionRangesI "\n".toList 1 1 .lines false = [(1, 0)] := by
   decide
+
+
+/-! ### yank-pop after a yank that was followed by an edit -/
+
+/-- `delete-char` never touches the ring, and when it removes something it forgets
+    `document_before_paste` -/
+theorem deleteChar_clears_dbp (rs : Char → Bool) (mx : Nat) (s : St) (arg : Arg)
+    (hch : (stepX rs mx s arg .deleteChar).buf ≠ s.buf) :
+    (stepX rs mx s arg .deleteChar).dbp = none ∧ (stepX rs mx s arg .deleteChar).ring = s.ring := by
+  simp only [stepX] at hch ⊢
+  exact ⟨by simp only [touch, if_neg hch], trivial⟩
+
+/-- **`C-y`, an edit, `M-y`.**  After a yank followed by any key of the extended model — other than a
+    yank / yank-pop (incl. shift-selection `C-y`) — that changed the text or the cursor (a forward
+    kill that leaves the cursor in place, delete-char, typing, a motion ...), yank-pop does nothing:
+    text, cursor and ring stay as they are. -/
+theorem yank_pop_after_edit_is_noop (rs : Char → Bool) (mx : Nat) (s : St) (arg : Arg) (cmd : ECmd)
+    (hc : cmd = .deleteChar ∨ cmd = .killWordC ∨ ∃ c, cmd = .base c ∧ c ≠ .yank ∧ c ≠ .yankPop)
+    (hch : (stepX rs mx s arg cmd).buf ≠ s.buf) :
+    (yankPop (stepX rs mx s arg cmd)).buf = (stepX rs mx s arg cmd).buf ∧
+    (yankPop (stepX rs mx s arg cmd)).ring = (stepX rs mx s arg cmd).ring := by
+  apply yank_pop_needs_yank
+  rcases hc with rfl | rfl | ⟨c, rfl, h1, h2⟩
+  · exact (deleteChar_clears_dbp rs mx s arg hch).1
+  · have hb := (stepX_cdelete rs mx s arg).1
+    have : (stepX rs mx s arg .killWordC).dbp = touch s.buf s.dbp (killWordK rs s.buf arg.val).buf := by
+      simp [stepX, applyKill]
+    rw [this, touch, if_neg (by rw [← hb]; exact hch)]
+  · exact change_clears_dbp rs mx s arg c ⟨h1, h2⟩ hch
+
+example : (runX (· = ' ') 3 exS5 [(.none, .base .yank), (.none, .deleteChar), (.none, .base .yankPop)]).buf.text
+    = "xA".toList ∧
+    (runX (· = ' ') 3 exS5 [(.none, .base .yank), (.none, .base .killLine), (.none, .base .yankPop)]).ring
+    = [⟨"y".toList, .chars⟩, ⟨['A'], .chars⟩, ⟨['B'], .chars⟩] := by decide
 
 end Ptk.C09
